@@ -2,11 +2,11 @@
    Mirrors src/writers/file_log_writer/{state.rs, state/numbers.rs, state/timestamps.rs,
    state/list_and_cleanup.rs, state_handle.rs (sync part), builder.rs}.
    No proofs in this file. *)
-Require Import FL.Base.Bytes FL.Base.PathName FL.Fs.Fs FL.Time.Civil FL.Time.TsFormat FL.Names.FileSpec.
+Require Import FL.Base.Bytes FL.Base.PathName FL.Fs.Fs FL.Time.Civil FL.Time.Period FL.Time.TsFormat FL.Names.FileSpec.
+Require Export FL.Time.Period.
 Open Scope N_scope.
 
 (* ------------------------------------------------------------------ configuration *)
-Inductive age := ADay | AHour | AMinute | ASecond.
 Inductive criterion := CSize (n : N) | CAge (a : age) | CAgeOrSize (a : age) (n : N).
 Inductive naming := NTimestamps | NTimestampsDirect | NCustom (cur : option bytes) (f : tsfmt)
                   | NNumbers | NNumbersDirect.
@@ -162,14 +162,6 @@ Definition infix_from_ts (c : config) (w : world) (fmt : tsfmt) (t : Z) : bytes 
 Definition ts_from_infix (w : world) (fmt : tsfmt) (infix : bytes) : option Z :=
   match parse_ts_local fmt infix with Some l => Some (l - woff w)%Z | None => None end.
 
-Definition same_period (a : age) (x y : civil) : bool :=
-  let d := (cy x =? cy y)%Z && (cmo x =? cmo y)%Z && (cd x =? cd y)%Z in
-  match a with
-  | ADay => d
-  | AHour => d && (ch x =? ch y)%Z
-  | AMinute => d && (ch x =? ch y)%Z && (cmi x =? cmi y)%Z
-  | ASecond => d && (ch x =? ch y)%Z && (cmi x =? cmi y)%Z && (cs x =? cs y)%Z
-  end.
 Definition age_rotation_necessary (w : world) (a : age) (created : Z) : bool :=
   negb (same_period a (local_civil w created) (local_civil w (wnow w))).
 Definition size_rotation_necessary (max cur : N) : bool := max <? cur.
